@@ -82,7 +82,9 @@ def classify(toks, n, per):
             if (p, i) not in delivered:
                 bad.append(('lost', 'message %d of producer %d never reached the sink' % (i, p), len(toks)))
                 break
-    if not bad and locked_m != order:
+    # only meaningful when the schedule point inside the critical section fired once per message (it is a hook of the
+    # code under test: a rewrite may bypass it, which by itself says nothing about the property)
+    if not bad and len(locked_m) == len(order) and locked_m != order:
         bad.append(('acq_order', 'delivery order differs from the order in which the handler mutex was acquired', 0))
     return bad
 
